@@ -49,10 +49,12 @@ MkT(fs, size) ==
 MkV(vs) ==
   [TypeDef("V", "pub", <<Field("w", "pub", <<>>, TCPtr(TNm("u8")), None, FALSE)>>)
      EXCEPT !.vft = Vft(vs[4], <<Func("f1", "pub", <<>>, <<ArgM>>, TNone, None, vs[1], ""),
-                                 Func("f2", "pub", <<" second slot">>, <<ArgC, Arg("a", TNm("u32"))>>, TNm("u32"), None, vs[2], ""),
+                                 Func("f2", "pub", <<" second slot">>, <<ArgC, Arg("a", TNm("u32"))>>, TNm("u32"), None, vs[2], "cdecl"),
                                  Func("f3", "priv", <<>>, <<ArgM>>, TNone, None, vs[3], "")>>)]
 EVal(x) == IF x = None THEN NumNone ELSE NumInt(x)
-MkE(es) == EnumDef("E", "pub", TNm("i32"), <<Variant("A", EVal(es[1]), FALSE), Variant("B", EVal(es[2]), FALSE), Variant("C", EVal(es[3]), FALSE)>>)
+(* the default marker sits on the middle variant: the implicit values after it keep counting *)
+MkE(es) == [EnumDef("E", "pub", TNm("i32"), <<Variant("A", EVal(es[1]), FALSE), Variant("B", EVal(es[2]), TRUE), Variant("C", EVal(es[3]), FALSE)>>)
+              EXCEPT !.defaultable = TRUE]
 
 MkInput(ptr, fs, vs, es) ==
   [ptr |-> ptr, mods |-> <<Module(<<"m">>, <<>>, <<MkT(fs, None), MkV(vs), MkE(es)>>)>>]
